@@ -18,9 +18,19 @@ static void setup() {
     Case c; c.set("phase", "setup"); set_current(c); deps::inject(0); REG = &lib::Registry::get();
     STK = (uint8_t*)mmap(nullptr, STKSZ, PROT_READ | PROT_WRITE, MAP_PRIVATE | MAP_ANONYMOUS, -1, 0);
 }
+// every block the library hands to the injected free (seed release, and failure exits of load/decode) must have been
+// wiped through the injected function first: in "mark" mode its content is 0xEE throughout
+static size_t g_freed_seen = 0;
+static std::string freed_blocks_wiped(const char* call) {
+    deps::Kit& k = deps::kit(0);
+    for (; g_freed_seen < k.freed.size(); g_freed_seen++) for (uint8_t b : k.freed[g_freed_seen].content) if (b != 0xEE)
+        return std::string("during ") + call + " a block reached the injected free without having been wiped by the injected wipe function (content " + vf::hex(k.freed[g_freed_seen].content).substr(0, 80) + "...)";
+    return "";
+}
 struct Pat { std::string what; std::string bytes; size_t window; int idxw = 0; };   // idxw: width of one index for index-array patterns
 // search the used part of the dead stack for any `window` consecutive bytes of each pattern
 static std::string scan(const std::vector<Pat>& pats, const char* call) {
+    { std::string fb = freed_blocks_wiped(call); if (!fb.empty()) return fb; }
     size_t lo = 0; while (lo < STKSZ && STK[lo] == 0xA5) lo++; if (lo >= STKSZ) return ""; lo &= ~(size_t)63;
     for (auto& p : pats) { if (p.bytes.size() < p.window) continue;
         for (size_t off = 0; off + p.window <= p.bytes.size(); off++) {
@@ -45,7 +55,7 @@ static std::vector<unsigned> indices_of(const lib::LangEntry& le, const std::str
 
 // case: secret(19, high entropy) birthday ufeat lang coin pw(hex) mask(hex32) scenario
 static std::string oracle(const Case& c) {
-    deps::Kit& k = deps::kit(0); k.reset_all(); Evidence& ev = W().ev; k.mz_mode = deps::MZ_MARK; polyseed_enable_features(7);
+    deps::Kit& k = deps::kit(0); k.reset_all(); g_freed_seen = 0; Evidence& ev = W().ev; k.mz_mode = deps::MZ_MARK; polyseed_enable_features(7);
     const lib::LangEntry* le = REG->by_name(c.get("lang")); if (!le) return "";
     std::string sec = c.bytes("secret"); sec.resize(19, '\x5a'); std::string sec150 = sec; sec150[18] &= 0x3F; unsigned coin = (unsigned)c.u("coin") & 2047u, uf = (unsigned)c.u("ufeat") & 7u;
     std::string pw = c.bytes("pw"); pw = pw.substr(0, pw.find('\0')); std::string mask = c.bytes("mask"); mask.resize(32, '\x77');
@@ -97,7 +107,7 @@ static std::string oracle(const Case& c) {
     // ---- store / load (every exit path) / keygen / getters
     static polyseed_storage stg; on_stack([&]() { polyseed_store(seed, stg); }); msg = scan(P, "store"); if (!msg.empty()) return msg; ev.count("call:store");
     {
-        lib::Image img; memcpy(img.data(), stg, 32); lib::Image variants[5] = {img, img, img, img, img}; variants[1][30] ^= 1; variants[2][0] ^= 1; variants[3][29] = 0; const char* labels[5] = {"load (success)", "load (checksum error)", "load (format error, header)", "load (format error, byte 29)", "load (allocation failure)"};
+        lib::Image img; memcpy(img.data(), stg, 32); lib::Image variants[5] = {img, img, img, img, img}; variants[1][30] ^= 1; variants[2][(scenario & 4) ? 31 : 28] |= 0x80; variants[3][29] = 0; const char* labels[5] = {"load (success)", "load (checksum error)", "load (format error, padding or footer)", "load (format error, byte 29)", "load (allocation failure)"};
         for (int i : {0, 1 + scenario % 4}) { static polyseed_data* l; static int lst; l = nullptr; if (i == 4) k.fail_all = true; on_stack([&]() { lst = polyseed_load(variants[i].data(), &l); }); k.fail_all = false;
             std::vector<Pat> Q = P; if (data.size() == 16) add_indices(Q, data, "the polynomial coefficients"); msg = scan(Q, labels[i]); if (lst == 0) polyseed_free(l); if (!msg.empty()) return msg; ev.count(std::string("exit:load/") + model::status_name(lst)); }
         if (uf) { polyseed_enable_features(0); static polyseed_data* l; static int lst; l = nullptr; on_stack([&]() { lst = polyseed_load(img.data(), &l); }); polyseed_enable_features(7); std::vector<Pat> Q = P; if (data.size() == 16) add_indices(Q, data, "the polynomial coefficients"); msg = scan(Q, "load (unsupported features)"); if (lst == 0) polyseed_free(l); if (!msg.empty()) return msg; ev.count(std::string("exit:load/") + model::status_name(lst)); }
